@@ -6,6 +6,7 @@ raw samples, driver metrics store, hand-over message, race control), AllSamplesA
 record table (exactly one latency / service_time / processing_time record per executed request with the right task, operation,
 sample type and client id, read from the metrics payloads race control received).
 """
+from .. import tlc
 from . import racecommon as rc
 
 CLAUSES = rc.C07_CLAUSES
@@ -60,6 +61,82 @@ def run(ctx, out):
     out.sample({"scenario": some[0]["scn"], "final_record_table": last.get("final", [])[:6], "rc_payloads": [m["k"] + ":" + str(len(m["ids"])) for m in last["st"]["rcbox"]]})
     out.note("leg C2S: %d races, %d traces accepted by TLC" % (len(jobs), out.traces_validated))
     downsampling_leg(ctx, out, index)
+    volume_leg(ctx, out)
+
+
+def volume_leg(ctx, out):
+    """High volume: many more samples than any plausible batch / default buffer constant sit in a worker's sampler when the task
+    ends; every one of them must leave the worker (only a queue that is full AT ITS CONFIGURED SIZE may drop)."""
+    import random
+
+    from .. import racetrace, tracecheck
+    from ..core import Violation
+
+    items, cases = [], {}
+    for n, (added, qsize) in enumerate([(40000, None), (70000, 50000)] if ctx.quick else [(40000, None), (70000, 50000), (150000, None), (20000, 30000)]):
+        scn = {"sched": [{"tasks": [{"id": 1, "clients": 1, "reqs": 2, "cp": False, "acp": False}], "cap": 0}], "workerOf": [1], "W": 1}
+        tr = racetrace.TracedRace(scn, seed=ctx.seed + n, test_mode=True, queue_size=qsize)
+        shipped = [0]
+        try:
+            tr.start()
+            w = tr.w
+            prev_hook = w.sim.send_hook
+
+            def hook(src, dst, msg, _prev=prev_hook):
+                if type(msg).__name__ == "UpdateSamples":
+                    shipped[0] += sum(1 for s_ in msg.samples if s_.request_meta_data.get("verif-volume"))
+                if _prev is not None:
+                    _prev(src, dst, msg)
+
+            w.sim.send_hook = hook
+            rnd = random.Random(ctx.seed + 17 * n)
+            injected = False
+            for _ in range(600):
+                en = w.enabled()
+                if not en:
+                    break
+                inst = tr.worker(1)
+                if not injected and inst.sampler is not None and w.pending:
+                    # the executor is in its last request: the samples pile up now
+                    from esrally import metrics
+
+                    task = w.tasks_by_id[1]
+                    for k in range(added):
+                        inst.sampler.add(task, 0, metrics.SampleType.Normal, {"verif-volume": True}, 1.0, 1.0, 0.0, 0.0, 0.0, None, 1, "ops", 1.0, None)
+                    injected = True
+                # never deliver to the driver (it would post-process 10^5 samples): only workers, executors and requests move
+                cand = [d for d in en if not injected or (not (d[0] == "deliver" and d[2] == w.DRIVER) and not (d[0] == "wakeup" and d[1] == w.DRIVER))]
+                if not cand:
+                    break
+                d = rnd.choice(cand)
+                if injected:
+                    # the executor finishes first, then the worker wakes up: as few flushes as possible before the join point
+                    first = [x for x in cand if x[0] in ("req", "exec_start")]
+                    d = first[0] if first else d
+                if d[0] == "req":
+                    w.step(d, outcome={"vid": -1, "deps": 0, "t": w.clock.time()})
+                else:
+                    w.step(d)
+                if injected and any(type(m).__name__ == "JoinPointReached" for q in w.sim.chan.values() for m in q if q):
+                    jp = [m for q in w.sim.chan.values() for m in q if type(m).__name__ == "JoinPointReached"]
+                    if len(jp) >= 1 and tr.worker(1).sampler is None:
+                        break
+            if not injected:
+                raise tlc.MachineryError("volume leg: the worker never had a running executor")
+        finally:
+            tr.close()
+        real_q = qsize if qsize is not None else (1 << 20)
+        it = {"id": "vol%d" % n, "kind": "volume", "added": added, "qsize": real_q, "shipped": shipped[0]}
+        items.append(it)
+        cases[it["id"]] = {"kind": "volume", "added": added, "qsize": qsize, "n": n}
+        out.add_case(("volume", added, qsize))
+    v = tracecheck.validate("RaceDriver", "TraceDownsample", "TraceDownsample.cfg", items, name="c07vol")
+    out.traces_validated += len(items) - len(v.l1)
+    for tid, fails in v.l1.items():
+        it = next(x for x in items if x["id"] == tid)
+        out.violations.append(Violation("OnlyFullQueueDropsAtVolume", cases[tid], signature={"clauses": ["OnlyFullQueueDropsAtVolume"], "kind": "volume"}, detail="%d samples queued in a worker (queue size %d): %d left the worker by the time it reported the join point" % (it["added"], it["qsize"], it["shipped"])))
+    out.extra["volume_leg"] = [{k: x[k] for k in ("added", "qsize", "shipped")} for x in items]
+    out.note("volume leg: %s" % [(x["added"], x["qsize"], x["shipped"]) for x in items])
 
 
 def downsampling_leg(ctx, out, index):
